@@ -23,6 +23,7 @@ mod search;
 mod streams;
 mod util;
 
+mod chan;
 mod c01;
 mod c02;
 mod c03;
